@@ -390,6 +390,17 @@ class Monitor(object):
                     sh.jo_participants = cl
                 else:
                     sh.jo_participants = [b for b in sh.jo_participants if 'r' not in sh.seq(b)]
+                if self.final and not sh.irregular and not sh.degenerate and name in TRIALS:
+                    # bounded progress: the round is complete (every participant attempted or retired).  One clearance breaks
+                    # the tie - the competition is over with that athlete first; nobody left to jump - it is drawn.  (A state
+                    # that stays 'jumpoff' never reaches the terminal oracle, so this is judged here.)
+                    ctx.count('eval.jump-off-round-complete')
+                    if len(cl) == 1 and ns == 'jumpoff':
+                        ctx.violation('jump-off-not-decided:single-clearance-in-a-complete-round-but-state-stays-jumpoff',
+                                      self.describe(sh, name, arg), 'finished', ns)
+                    elif not cl and not sh.jo_participants and ns == 'jumpoff':
+                        ctx.violation('draw-not-declared:everyone-still-in-the-jump-off-retired-but-state-stays-jumpoff',
+                                      self.describe(sh, name, arg), 'drawn', ns)
         self.invariants(comp, sh, name, arg)
         if self.final and ns == 'jumpoff' and sh.jo_initial and not sh.degenerate and all('r' in sh.seq(b) for b in sh.jo_initial):
             # every athlete tied for first has retired: nobody is left to break the tie, it must be declared drawn
